@@ -1018,6 +1018,33 @@ func sharedStateIsEnumerated(c *core.Ctx) {
 					container = true
 				}
 			}
+			// a counter or pointer of sync/atomic (or a struct of them) is written through its
+			// methods, a plain integer through atomic.AddInt32(&g, ..): run-time state all the same
+			if containsAtomic(elem, 0) {
+				container = true
+			}
+			for _, fn := range fns {
+				if isInitFunc(fn) {
+					continue
+				}
+				for _, b := range fn.Blocks {
+					for _, in := range b.Instrs {
+						ci, ok := in.(ssa.CallInstruction)
+						if !ok {
+							continue
+						}
+						cal := ci.Common().StaticCallee()
+						if cal == nil || cal.Pkg == nil || cal.Pkg.Pkg.Path() != "sync/atomic" || strings.HasPrefix(cal.Name(), "Load") {
+							continue
+						}
+						for _, a := range ci.Common().Args {
+							if a == ssa.Value(g) || addrRoot(a) == ssa.Value(g) {
+								runtimeWrite = true
+							}
+						}
+					}
+				}
+			}
 			if !runtimeWrite && !container {
 				continue
 			}
@@ -3346,4 +3373,31 @@ func thePartialFlagIsForCallStagesOnly(c *core.Ctx) {
 		core.Undecidedf("the pipe compiler never sets Code.pipeActive")
 	}
 	c.Stat("partial_flag_sets", n)
+}
+
+// containsAtomic: the type is, or is a struct or array that holds, a type of
+// package sync/atomic.
+func containsAtomic(t types.Type, d int) bool {
+	if d > 3 {
+		return false
+	}
+	if nt := core.NamedOf(t); nt != nil && nt.Obj().Pkg() != nil {
+		if _, isPtr := t.(*types.Pointer); !isPtr && nt.Obj().Pkg().Path() == "sync/atomic" {
+			return true
+		}
+		if nt.Obj().Pkg().Path() == "sync" {
+			return false // a lock guards something else, which is looked at in its own right
+		}
+	}
+	switch u := t.Underlying().(type) {
+	case *types.Struct:
+		for i := 0; i < u.NumFields(); i++ {
+			if containsAtomic(u.Field(i).Type(), d+1) {
+				return true
+			}
+		}
+	case *types.Array:
+		return containsAtomic(u.Elem(), d+1)
+	}
+	return false
 }
